@@ -101,9 +101,10 @@ def _combinations_engine(pid, tier, seed, known):
 
 SORT_TRUST = ["std::sort / std::stable_sort / std::iota are external: given a strict weak order (proved here for every comparator instantiation) they return a sorted permutation, stable_sort a stable one",
               "the hand-written quicksort (quick_sort / quick_argsort and the kernels around them) is under contract for memory safety, its stack discipline and the frame of each call (contracts/quicksort.py); that its output is sorted and a permutation is NOT proved: BOUNDED stand-in only; termination is not proved; binary_op's result is an unknown boolean in those units (the predicates themselves are proved total preorders with NaN first)",
-              "the sorting cores awkward_sort / awkward_argsort (std::sort on a std::vector of positions) and the std::string based string sorts are checked by the BOUNDED stand-ins listed under coverage.bounded; those are not proofs"]
+              "awkward_sort / awkward_argsort / awkward_ListOffsetArray_local_preparenext_64 are under contract (contracts/stdsort.py) with std::vector<int64_t>, std::iota, std::next, std::sort, std::stable_sort and std::transform as built-ins whose contracts are ASSUMED (the sorted range is a permutation of itself ordered by the comparator, stable_sort keeps equivalent elements in order, nothing else changes); memory safety for all eleven element types, the functional postcondition (ordered within each list, positions of that list only and each once, stability) for awkward_sort of all types and for awkward_argsort of int64, float64 and bool",
+              "the std::string based string sorts are checked by the BOUNDED stand-ins listed under coverage.bounded; those are not proofs"]
 PLAN["C06"] = {"kernels": [r"sorting_ranges", r"rearrange_shifted", r"local_preparenext", r"awkward_unique", r"subrange_equal", r"unique_strings",
-                           r"awkward_quick_sort", r"awkward_quick_argsort"],
+                           r"awkward_quick_sort", r"awkward_quick_argsort", r"^awkward_sort$", r"^awkward_argsort$"],
                "functions": list(QUICK_HELPERS),
                "kinds": ["S", "E", "F"], "extra": [_sorting_engine], "trusted": KERNEL_TRUST + SORT_TRUST}
 PLAN["C07"] = {"kernels": [r"combinations"], "kinds": ["S", "E", "F"], "extra": [_combinations_engine],
